@@ -59,7 +59,66 @@ def wrap_datum(node, inner, fac):
     return lambda: build(node)
 
 
+class _Q:
+    def count(self, *a, **k):
+        pass
+
+
+def run_layout_case(ctx, rng):
+    """Models with name_mapping layouts (renames, nested paths, list layouts, as_list, ExtraForbid) x hostile data at the root,
+    at every branch node and at every leaf (int-keyed mappings for list nodes included)."""
+    from .. import models  # noqa: PLC0415
+    from . import c05  # noqa: PLC0415
+
+    node = c05.gen_model(rng, rng.choice([1, 2]), _Q())
+    providers = models.collect_providers(node)
+    prog = Program(node, providers)
+    if any(k[0] == "loader" for k in prog.creation_errors):
+        ctx.count("layout_loader_refused")
+        return
+    try:
+        valid = c05.to_mutable(node.dump(node.gen(rng)))
+    except LookupError:
+        return
+    ctx.count("layout_programs")
+    bag = [("valid", (lambda: __import__("copy").deepcopy(valid)), False)]
+    for label, fac in hostile.mutants(rng, valid, 24):
+        bag.append((label, fac, False))
+    for label, fac in rng.sample(hostile.POOL, 12):
+        bag.append((label, fac, label in ONE_SHOT))
+    # int-keyed mappings in place of every list node
+    import copy  # noqa: PLC0415
+
+    def list_paths(d, prefix=()):
+        if isinstance(d, list):
+            yield prefix
+            for i, v in enumerate(d):
+                yield from list_paths(v, (*prefix, i))
+        elif isinstance(d, dict):
+            for k, v in d.items():
+                yield from list_paths(v, (*prefix, k))
+    for path in list(list_paths(valid))[:6]:
+        for variant in ("all", "first-only", "second-only"):
+            def fac(path=path, variant=variant):
+                d = copy.deepcopy(valid)
+                cur, parent, key = d, None, None
+                for el in path:
+                    parent, key, cur = cur, el, cur[el]
+                mp = {i: v for i, v in enumerate(cur)}
+                if variant == "first-only":
+                    mp = {0: mp.get(0)}
+                elif variant == "second-only":
+                    mp = {1: mp.get(1, 0)}
+                if parent is None:
+                    return mp
+                parent[key] = mp
+                return d
+            bag.append((f"int-keyed-mapping@{list(path)}:{variant}", fac, False))
+    check_loads(ctx, node, prog, bag)
+
+
 def run_case(ctx, rng, idx):
+    run_layout_case(ctx, rng)
     inner = gen_node(rng, ctx.tier, max_depth=2, with_models=True)
     node = wrap(rng, inner)
     prog = Program(node)
